@@ -23,6 +23,8 @@ func checkC06(c *Ctx, r *Report) {
 	ruleLexerProgress(c, r, "lexer-progress")
 	checkJumpArith(c, r, "forward-only")
 	ruleVarintWrappers(c, r, "operand-codec", "")
+	r.rule("operand-emission", 6, "the emission primitives write what the VM decodes: emitOp one opcode byte, emitUvarint exactly the bytes uvarintToBytes produced for the operand, emitBytes each byte once — the VM's operand fetches stay inside the code only for bytecode whose instructions tile it")
+	checkEmitPrimitives(c, r, "operand-emission")
 	if m, err := c.emitModel(); err == nil {
 		r.rule("no-loop-op", 1, "the compiler never emits LOOP: every jump goes forward, pc strictly increases, execution reaches RET")
 		r.check(!m.Emitted["opLOOP"], "no-loop-op", "LOOP", "never emitted", "the compiler emits LOOP (a backward jump): a compiled program may not terminate", "")
